@@ -15,6 +15,11 @@ def run(ctx, res):
             res.count("C06 E3 obligations")
             res.oblige(rec["desc"], rec["ok"], detail=rec.get("detail"), key="C06.E3:%s" % rec["key"], loc=rec["loc"],
                        rule="E3 abstract interpretation", msg="not proved: %s" % rec["desc"])
+        # a link that dangles into a freed table after an unwind makes every later drop or hand-back read freed entries
+        if rec["prop"] == "C16" and (rec["key"].endswith(":no-link-into-unowned-table") or rec["key"].endswith(":table-not-detached")):
+            res.count("C06 E3 obligations")
+            res.oblige(rec["desc"], rec["ok"], detail=rec.get("detail"), key="C06.E3:%s" % rec["key"], loc=rec["loc"],
+                       rule="E3 abstract interpretation", msg="not proved: %s" % rec["desc"])
         if rec["prop"] == "E3":
             res.violate("E3:" + rec["key"], rec["desc"], rec["loc"], {}, "E3 abstract interpreter")
     res.trusted.append("rustc's move checker (at most one move of every owned value); lmv/models.py")
